@@ -30,6 +30,15 @@ TField == /\ IsEvent("Field")
                [] E.rule = "var"      -> VarField(E.field, E.enc, E.n)
                [] E.rule = "varnul"   -> VarFieldNul(E.field, E.enc, E.n)
                [] OTHER -> FALSE
+\* C03 on frames that carry non-ASCII text: the encoder never aborts; what it returns is one well-formed frame of the mode
+\* (multiple of 4, within the limit, size byte = length or length / 4) which the decoder consumes whole as the same kind.  Text
+\* is truncated to its field, so a text-bearing packet with otherwise default fields is never too large: no refusal either.
+TFrame == /\ IsEvent("Frame")
+          /\ E.res = "ok"
+          /\ LET n == Len(E.bytes) IN
+             /\ n % 4 = 0 /\ n >= 4 /\ n <= (IF E.mode = "C" THEN 1020 ELSE 252)
+             /\ E.bytes[1] = (IF E.mode = "C" THEN n \div 4 ELSE n)
+             /\ E.consumed = n /\ E.back = E.kind
 \* C11: decoding stops at the first NUL
 TFieldDec == /\ IsEvent("FieldDec") /\ Matches(CpDecode(FirstNul(E.field)), E.text)
 \* IS_MSO: the whole message is one LFS string (a code page selected in the name stays in force in the text); the decoded
@@ -45,7 +54,7 @@ TMsoDec == /\ IsEvent("MsoDec")
            /\ E.re_res = "ok" /\ Len(E.re) >= 8 + Len(E.enc) /\ Len(E.re) % 4 = 0 /\ E.re[1] = Len(E.re)
            /\ SubSeq(E.re, 2, 8 + Len(E.enc)) = SubSeq(E.frame, 2, 8 + Len(E.enc))
            /\ AllNul(SubSeq(E.re, 9 + Len(E.enc), Len(E.re))) /\ Len(E.re) - (8 + Len(E.enc)) <= 4
-TNext == TMsoDec \/ TCpEnc \/ TCpDec \/ TE2E \/ TEsc \/ TUnesc \/ TStrip \/ TColour \/ TField \/ TFieldDec
+TNext == TMsoDec \/ TCpEnc \/ TCpDec \/ TE2E \/ TEsc \/ TUnesc \/ TStrip \/ TColour \/ TFrame \/ TField \/ TFieldDec
 TSpec == l = 1 /\ [][TNext]_l
 Accepted ==
   LET reached == TLCGet("stats").diameter IN
